@@ -99,6 +99,12 @@ impl Proc {
                 return Err(format!("server exited at start-up with {st}"));
             }
             if probe_addrs.iter().all(|a| TcpStream::connect(a).is_ok()) {
+                // the listener that answered must be this process: a server that could not bind
+                // (port taken by someone else in the meantime) exits within milliseconds
+                std::thread::sleep(Duration::from_millis(60));
+                if let Ok(Some(st)) = p.child.try_wait() {
+                    return Err(format!("server exited at start-up with {st}"));
+                }
                 return Ok(p);
             }
             if t0.elapsed() > wait {
